@@ -115,4 +115,94 @@ def finalOK (final uninterrupted : Lv) (keys : List (String × String)) : Bool :
 def handlersOK (told : List Ev) (final : Lv) (keys : List (String × String)) : Bool :=
   keys.all fun (T, id) => lastTold told T id == final T id
 
+/-! ### the alert node: which handlers does a process death INSIDE a point mislead?
+
+A point of an alert node with an anonymous AND a named topic is announced to the handlers of the anonymous topic,
+recorded there, announced to the handlers of the named topic, recorded there — four moments, in this order; the
+process can die between any two. The definitions below say, from the history and the crash point alone (no model
+run), where every id ends up after the restart and what its handlers were last told; `nodeMisledChar` is the exact
+set of (topic, id) that end with a level the handlers were not told (findings `notify-before-persist` and
+`two-topic-split`); theorem `node_handlers_not_misled_except_characterised` proves it exact. -/
+
+/-- Is a point of level `l` announced (handed to `handleEvent`) when the alert stands at `cur`? An unchanged
+level is repeated only when it is not OK and there is no `.stateChangesOnly()`; a change always, except a recovery
+under `.noRecoveries()`. -/
+def announces (sco noRec : Bool) (cur l : Nat) : Bool :=
+  if cur = l then (l != 0 && !sco) else !(noRec && l == 0)
+
+/-- The level the node itself holds for an id: that of its last point since the task (re)started. -/
+def groupStep (id : String) (g : Option Nat) : NOp → Option Nat
+  | .point i l _ => if i = id then some l else g
+  | .taskRestart => none
+
+def groupLevel (ops : List NOp) (id : String) : Option Nat := ops.foldl (groupStep id) none
+
+/-- Does a node whose topics hold `id` at level `Lv` (and whose own state for the id is `g`; `none` = to be
+restored from the topics) process `ops` WITHOUT announcing `id` even once? -/
+def quietFrom (sco noRec : Bool) (Lv : Nat) (id : String) : Option Nat → List NOp → Bool
+  | _, [] => true
+  | g, .point i l _ :: rest =>
+    if i = id then !announces sco noRec (g.getD Lv) l && quietFrom sco noRec Lv id (some l) rest
+    else quietFrom sco noRec Lv id g rest
+  | _, .taskRestart :: rest => quietFrom sco noRec Lv id none rest
+
+def hasPoint (id : String) (ops : List NOp) : Bool :=
+  ops.any fun | .point i _ _ => i == id | .taskRestart => false
+
+/-- How far a point that is announced got when the process died after `j` of its sub-steps
+(`[set the node's state; anonymous topic: restore-if-closed, memory, NOTIFY, TRANSACTION; named topic: the same
+four]`): were the handlers of the anonymous / named topic told, had the record reached the disk? -/
+structure Reached where
+  toldA : Bool
+  diskA : Bool
+  toldN : Bool
+  diskN : Bool
+deriving DecidableEq, Repr
+
+def reached (announced : Bool) (j : Nat) : Reached :=
+  { toldA := announced && decide (4 ≤ j), diskA := announced && decide (5 ≤ j),
+    toldN := announced && decide (8 ≤ j), diskN := announced && decide (9 ≤ j) }
+
+/-- The silent reconciliation (`restoreEvent`) at the first point of the id after the restart, on levels: both
+topics know the id → the anonymous topic wins; only the named topic knows it (the anonymous record was cleared
+by an OK, or never written) → the named topic's state is copied to the anonymous topic; only the anonymous topic
+knows it → nothing. -/
+def reconcile (dA dN : Nat) : Nat × Nat :=
+  if dA = dN then (dA, dN) else if dA = 0 then (dN, dN) else if dN = 0 then (dA, dN) else (dA, dA)
+
+/-- where an id ends on the anonymous (`A`) / named (`N`) topic and what the handlers there were last told -/
+structure NodeEnd where
+  lvA : Nat
+  tA : Nat
+  lvN : Nat
+  tN : Nat
+deriving DecidableEq, Repr
+
+/-- For a crash after `j` sub-steps of `ops[k]`, a point: the id in flight, whether the restarted node never
+announces that id again (`quiet`), and — if so — where the id ends and what its handlers were last told. -/
+def nodeCrashEnd (sco noRec : Bool) (ops : List NOp) (k j : Nat) : Option (String × Bool × NodeEnd) :=
+  match ops[k]? with
+  | some (.point id l _) =>
+    let L := nodeLevel noRec (ops.take k) id
+    let cur := (groupLevel (ops.take k) id).getD L
+    let r := reached (announces sco noRec cur l) j
+    let dA := if r.diskA then l else L
+    let dN := if r.diskN then l else L
+    let rest := ops.drop (k + 1)
+    let e := if hasPoint id rest then reconcile dA dN else (dA, dN)
+    some (id, quietFrom sco noRec e.1 id none rest,
+      { lvA := e.1, tA := if r.toldA then l else L, lvN := e.2, tN := if r.toldN then l else L })
+  | _ => none
+
+/-- (told, level) the characterisation predicts for topic `T` (`isAnon`: the anonymous one) -/
+def NodeEnd.on (e : NodeEnd) (isAnon : Bool) : Nat × Nat := if isAnon then (e.tA, e.lvA) else (e.tN, e.lvN)
+
+/-- **The misled set**: `(topic, id)` ends with a level its handlers were not told iff `id` is the id of the point
+in flight, the restarted node never announces it again, and on that topic the last word differs from the level
+the id ends at. -/
+def nodeMisledChar (sco noRec : Bool) (ops : List NOp) (k j : Nat) (isAnon : Bool) (id : String) : Bool :=
+  match nodeCrashEnd sco noRec ops k j with
+  | some (i0, quiet, e) => id == i0 && quiet && (e.on isAnon).1 != (e.on isAnon).2
+  | none => false
+
 end Kap.C08
